@@ -12,7 +12,7 @@
    move_hash_map_of_*_contents, `reserve`, timing statics and the can_add caches (pure
    memoisation of `map.get(x)` on maps that are not written while the cache lives) do not change
    content and are not modelled. *)
-From Coq Require Import List ZArith Bool Uint63.
+From Coq Require Import List ZArith Bool.
 Import ListNotations.
 Open Scope Z_scope.
 
@@ -377,21 +377,3 @@ Fixpoint ttrace (arefl has_rev : bool) (keys n : nat) (st : tstate) (ops : list 
 
 Definition run_ter (has_rev : bool) (keys n : nat) (ops : list top) : trace :=
   ttrace shipped_arefl has_rev keys n tempty ops 0 [].
-
-(* ------------------------------------------------------------------ fingerprints (tie only) *)
-
-Definition fp_mul : Uint63.int := Eval vm_compute in Uint63.of_Z 131105.
-Definition fp_one : Uint63.int := Eval vm_compute in Uint63.of_Z 1.
-Definition fp_init : Uint63.int := Eval vm_compute in Uint63.of_Z 7.
-Definition fp (l : list Z) : Uint63.int :=
-  fold_left (fun h v => Uint63.add (Uint63.add (Uint63.mul h fp_mul) (Uint63.of_Z v)) fp_one) l fp_init.
-Definition fp_steps (t : trace) : trace :=
-  match t with
-  | TOk s => TOk (map (fun l => [Uint63.to_Z (fp l)]) s)
-  | TErr s i => TErr (map (fun l => [Uint63.to_Z (fp l)]) s) i
-  end.
-Definition fp_hist (t : trace) : trace :=
-  match fp_steps t with
-  | TOk s => TOk [[Uint63.to_Z (fp (concat s))]]
-  | TErr s i => TErr [[Uint63.to_Z (fp (concat s))]] i
-  end.
